@@ -60,6 +60,9 @@ FILTERS = [
     ('${%3.reserved_bits} == "00000001" or ${%reserved_bits} == "00000001"', lambda m: m['reserved3'] == '00000001' or m['first_reserved_bits'] == '00000001'),
     ('${%flag_bits} == "0000001"', lambda m: m['flag_bits1'] == '0000001'),
     ('${%3.section_length} > ${%section_length}', lambda m: m['section3_length'] > m['section1_length']),
+    # parameter names that carry a digit
+    ('${%is_section2_presents}', lambda m: m['has_section2']),
+    ('not ${%is_section2_presents} and ${%edition} >= 2', lambda m: not m['has_section2']),
 ]
 
 
@@ -79,7 +82,7 @@ def known_meta(msg):
                 is_compressed=msg.compressed, master_table_version=m['master_table_version'], length=len(msg.bytes),
                 reserved3=m['reserved3'], flag_bits1=m['flag_bits1'],
                 first_reserved_bits=(m['reserved2'] if msg.sec2 is not None else m['reserved3']),
-                section1_length=s1, section3_length=s3)
+                section1_length=s1, section3_length=s3, has_section2=msg.sec2 is not None)
 
 
 CHANGED_LATER = b'<<a yielded message object no longer holds the bytes it held when it was yielded>>'
